@@ -906,10 +906,19 @@ class Fn:
             if t['k'] == 'call' and not t['dest']['pr']:
                 if st2 is None:
                     st2 = dict(store)
+                arg_var = None
+                if t['args'] and t['args'][0].get('k') in ('copy', 'move') and not t['args'][0]['p']['pr']:
+                    arg_var = st2.get(('v', t['args'][0]['p']['l']))
                 st2.pop(t['dest']['l'], None)
                 st2.pop(('v', t['dest']['l']), None)
                 # `x?` on the failure branch: from_residual always builds the failure variant
                 rn = strip_generics(t.get('res') or '')
+                if rn.endswith('std::ops::Try>::branch') and arg_var is not None and ('option::Option' in rn or 'result::Result' in rn):
+                    # `x?` on a value whose variant this path already fixed (a spliced helper's `Some(..)` / `None`)
+                    if arg_var in ('Some', 'Ok'):
+                        st2[('v', t['dest']['l'])] = 'Continue'
+                    elif arg_var in ('None', 'Err'):
+                        st2[('v', t['dest']['l'])] = 'Break'
                 if rn.endswith('std::ops::FromResidual>::from_residual'):
                     if 'option::Option' in rn:
                         st2[('v', t['dest']['l'])] = 'None'
@@ -1172,6 +1181,12 @@ VARIANT_PRESERVING = ('std::option::Option::map', 'std::option::Option::as_ref',
 def untry(a):
     """normalise the subject of a variant test: `x?` tests `Try::branch(x)` (Continue/Break of an Option is Some/None of x, of a
     Result Ok/Err); `x.map(f)`, `x.as_ref()` ... are in the same variant as x"""
+    if a and a[0] == 'bool' and a[1][0] == 'call' and a[1][1] == 'std::time::Duration::is_zero' and len(a[1][2]) == 1:
+        # d.is_zero()  <=>  d == Duration::ZERO
+        x = a[1][2][0]
+        while isinstance(x, tuple) and x and x[0] in ('ref', 'deref'):
+            x = x[1]
+        return ('cmp', 'eq' if a[2] else 'ne', x, ('constdef', 'std::time::Duration::ZERO'))
     for _ in range(6):
         if not (a and a[0] == 'is' and a[1][0] == 'call' and a[1][2]):
             return a
@@ -1810,6 +1825,14 @@ def apply_renames(P, base):
             # a nested fn moved out to the enclosing impl/module (or a helper moved into its only user): the scopes are nested
             cs = [f for f in new if fn_signature(f) == base[k] and parent(f.key) != parent(k) and
                   (parent(k).startswith(parent(f.key) + '::') or parent(f.key).startswith(parent(k) + '::'))]
+        if not cs:
+            # an inherent method whose impl block was moved to another module (or next to its type): rustc names it after the module
+            # of the impl block (`a::m::<impl a::B>::f`) resp. after the type (`a::B::f`) — same name, same full signature, same type
+            last = k.rsplit('::', 1)[-1]
+            cs = [f for f in new if f.key.rsplit('::', 1)[-1] == last and fn_signature(f) == base[k] and len(base[k]) > 1 and f.self_adt
+                  and not f.trait and (strip_generics(f.self_adt) == parent(k) or strip_generics(f.self_adt) == parent(f.key) or '<impl ' in f.j.get('path', ''))]
+            if len(cs) != 1 or sum(1 for k2 in missing if k2.rsplit('::', 1)[-1] == last and base[k2] == base[k]) != 1:
+                cs = []
         if not cs:
             # an associated function moved to a sibling type / to module level of the same module (`Inner::alloc_from_region(node, ..)`
             # -> `ListNode::fit(&self, ..)`): same full signature, still calls what the old one called, and a pinned caller of the
